@@ -467,6 +467,10 @@ class C01(Property):
             n = rng.choice([0, 1, 2, 3, 11])
             yield {"op": "partial", "n": n, "drop": rng.choice(["size", "elems", "none", "both"]), "extra_size": rng.random() < 0.2,
                    "te": rng.choice(STATUSES), "ts": rng.choice(STATUSES), "depth": 1, "oseed": rng.randrange(1 << 30)}
+        for _ in range(40 if wide else 12):     # several keys and depth 2: order of the forced gathering, key slice on incomplete streams
+            yield {"op": "partial", "n": rng.choice([1, 2, 3, 11]), "drop": rng.choice(["size", "elems", "none", "both"]), "extra_size": False,
+                   "keys": rng.sample(["0", "1", "0.2", "0.10", "0.9"], rng.randint(2, 3)), "te": rng.choice(STATUSES), "ts": rng.choice(STATUSES),
+                   "depth": rng.choice([1, 1, 2]), "oseed": rng.randrange(1 << 30)}
 
     # --------------------------------------------------------------------------------------------
     async def run_case(self, ctx: Ctx, rig: Rig, case: dict) -> None:
@@ -581,18 +585,25 @@ class C01(Property):
         elif op == "cwl":
             await self._cwl(ctx, rig, case)
         elif op == "partial":
-            n = case["n"]
-            elems = [Token(value=i, tag=f"0.{i}") for i in range(n)]
-            sizes = [Token(value=n, tag="0")]
-            if case["drop"] in ("size", "both"):
-                sizes = []
-            if case["drop"] in ("elems", "both") and elems:
-                elems = rng.sample(elems, rng.randint(0, len(elems) - 1))
+            n, depth = case["n"], case["depth"]
+            elems, sizes = [], []
+            # one key ("0"), or several concurrent keys: the forced gathering walks token_map in insertion order
+            for key in case.get("keys", ["0"]):
+                mid = ".0" * (depth - 1)
+                ke = [Token(value=i, tag=f"{key}{mid}.{i}") for i in range(n)]
+                ks = [Token(value=n, tag=key)]
+                drop = case["drop"] if key == case.get("keys", ["0"])[0] else rng.choice(["size", "elems", "none", "both"])
+                if drop in ("size", "both"):
+                    ks = []
+                if drop in ("elems", "both") and ke:
+                    ke = rng.sample(ke, rng.randint(0, len(ke) - 1))
+                elems += ke
+                sizes += ks
             if case["extra_size"]:
                 sizes.append(Token(value=rng.randint(0, 2), tag="0.7"))
             events = interleave(rng, elems, sizes, "shuffled", te=case["te"], ts=case["ts"])
             await self._gather_stage(ctx, rig, case, case["depth"], events, True, "gather-partial")
-            ctx.case({"case": case}, ("partial", n, case["drop"], case["te"], case["ts"], case["oseed"]), "partial")
+            ctx.case({"case": case}, ("partial", n, case["drop"], case["te"], case["ts"], case["oseed"]), "partial" if "keys" not in case else "partial-multi-key")
         else:
             raise ValueError(op)
 
